@@ -122,6 +122,7 @@ class Workspace(AbstractContextManager):
         self._property_groups: dict[uuid.UUID, ReferenceType[PropertyGroup]] = {}
         self._h5file: str | Path | BytesIO | None = None
         self._mode: str = mode
+        self._opened_as: str | None = None
         self._name: str = name
         self._objects: dict[uuid.UUID, ReferenceType[ObjectBase]] = {}
         self._repack: bool = repack
@@ -189,7 +190,9 @@ class Workspace(AbstractContextManager):
         if not self._geoh5:
             return
 
-        writable = self.geoh5.mode in ["r+", "a"]
+        # a handle shared with another session of this process reports that
+        # session's mode: the mode asked for this workspace counts as well
+        writable = self.geoh5.mode in ["r+", "a"] and self._opened_as != "r"
         if writable:
             # entities removed from their parent and dropped since the last listing:
             # delete their nodes before the file is closed
@@ -1267,6 +1270,8 @@ class Workspace(AbstractContextManager):
         if mode is None:
             mode = self._mode
 
+        self._opened_as = mode
+
         try:
             self._geoh5 = h5py.File(self.h5file, mode)
         except OSError:
@@ -1495,7 +1500,9 @@ class Workspace(AbstractContextManager):
             if self._geoh5 is None:
                 return None
 
-            if mode in ["r+", "a"] and self.geoh5.mode == "r":
+            if mode in ["r+", "a"] and (
+                self.geoh5.mode == "r" or self._opened_as == "r"
+            ):
                 raise UserWarning(
                     f"Error performing {fun}. "
                     "Attempting to write to a geoh5 file in read-only mode. "
